@@ -37,6 +37,8 @@ type emitCell struct {
 	Repeat   bool
 	FieldPad bool // fixed string with its own padding
 	LenAttr  bool // the field is the target of a length-of field
+	Single   bool   // match table with a single target packet
+	Alias    string // the type is spelled like this in the model (Typ is its canonical name)
 }
 
 type emitEntry struct {
@@ -85,6 +87,11 @@ func emitCells() []emitCell {
 	cs = append(cs, emitCell{Kind: "match"}, emitCell{Kind: "match", LenAttr: true})
 	// two scalar fields in one packet: the steps come in declaration order
 	cs = append(cs, emitCell{Kind: "order", Typ: "u16"})
+	// a match table whose alternatives all name one packet: dispatch must still go through the key
+	cs = append(cs, emitCell{Kind: "match", Single: true})
+	// the long spelling of a type in the model (the visitor stores the text as written): same text as for the short one
+	cs = append(cs, emitCell{Kind: "basic", Typ: "u32", Alias: "uint32"}, emitCell{Kind: "basic", Typ: "u32", Alias: "uint32", Repeat: true},
+		emitCell{Kind: "length", Typ: "u32", Alias: "uint32"}, emitCell{Kind: "checksum", Typ: "u32", Alias: "uint32"})
 	for _, t := range []string{"u16", "u32"} {
 		cs = append(cs, emitCell{Kind: "length", Typ: t}, emitCell{Kind: "checksum", Typ: t})
 	}
@@ -103,8 +110,21 @@ func emitCells() []emitCell {
 		if c.LenAttr {
 			c.ID += ":lentarget"
 		}
+		if c.Single {
+			c.ID += ":single"
+		}
+		if c.Alias != "" {
+			c.ID += ":spelled-" + c.Alias
+		}
 	}
 	return cs
+}
+
+func (c emitCell) spelled() string {
+	if c.Alias != "" {
+		return c.Alias
+	}
+	return c.Typ
 }
 
 // ---------------------------------------------------------------- building the symbolic cell
@@ -218,7 +238,7 @@ func (e *Engine) buildCell(s *State, c emitCell) *cellObjs {
 	switch c.Kind {
 	case "basic", "order":
 		t, a := mk("BasicFieldAttribute")
-		e.setF(s, a, t, "Type", Str(c.Typ))
+		e.setF(s, a, t, "Type", Str(c.spelled()))
 		e.setF(s, o.field, fT, "Attr", e.ifaceOf(t, a)...)
 		o.attr = a
 	case "fixed":
@@ -269,7 +289,11 @@ func (e *Engine) buildCell(s *State, c emitCell) *cellObjs {
 			}
 			return v
 		}
-		pairs := e.sliceOf(s, mpT, mkPair(0, "A"), mkPair(1, "A"), mkPair(2, "B"))
+		third := "B"
+		if c.Single {
+			third = "A"
+		}
+		pairs := e.sliceOf(s, mpT, mkPair(0, "A"), mkPair(1, "A"), mkPair(2, third))
 		o.pairs = pairs
 		o.attr = a
 		e.setF(s, a, t, "MatchKeyField", o.keyField)
@@ -281,11 +305,11 @@ func (e *Engine) buildCell(s *State, c emitCell) *cellObjs {
 		t, a := mk("LengthFieldAttribute")
 		target := e.basicField(s, Sym("in.t.Name", SStr), "u8")
 		e.setF(s, a, t, "TragetField", target)
-		e.setF(s, a, t, "LengthType", Str(c.Typ))
+		e.setF(s, a, t, "LengthType", Str(c.spelled()))
 		e.setF(s, o.field, fT, "Attr", e.ifaceOf(t, a)...)
 	case "checksum":
 		t, a := mk("CheckSumFieldAttribute")
-		e.setF(s, a, t, "Type", Str(c.Typ))
+		e.setF(s, a, t, "Type", Str(c.spelled()))
 		e.setF(s, a, t, "CheckSumType", Sym("in.f.CheckSumType", SStr))
 		e.setF(s, o.field, fT, "Attr", e.ifaceOf(t, a)...)
 	}
